@@ -31,7 +31,8 @@ Proof. exact letters_injective. Qed.
 Print Assumptions c16_letters_injective.
 
 (* loading what was saved restores exactly the instances not marked deleted, each
-   with its editing state and its values (references to deleted instances unset) *)
+   with its editing state and its values (references to deleted instances unset; inside an aggregate of aggregates, whose
+   elements the reader keeps as text, the name stays) *)
 Theorem c16_load_save : forall s, Forall (fun n => has_state n = true) s -> load (save s) = surviving s.
 Proof. exact load_save. Qed.
 Print Assumptions c16_load_save.
